@@ -84,7 +84,7 @@ func (o *Obl) query(extra ...string) string {
 // discharge decides one obligation with the portfolio. An `unsat` from any
 // solver discharges it; a `sat` from one solver against an `unsat` from
 // another is reported as an engine error by the caller (Verdict "conflict").
-func discharge(o *Obl, cfg *solverCfg, idx int, extra ...string) {
+func dischargeOnce(o *Obl, cfg *solverCfg, idx int, extra ...string) {
 	file := filepath.Join(cfg.tmp, fmt.Sprintf("q%d.smt2", idx))
 	qtext := o.query(extra...)
 	o.hasQuant = strings.Contains(qtext, "(forall ")
@@ -94,7 +94,7 @@ func discharge(o *Obl, cfg *solverCfg, idx int, extra ...string) {
 	}
 	if o.Expect == "sat" {
 		// vacuity canary: must NOT be provable
-		v, _, secs := runSolver("z3-new", file, 3, cfg.seed)
+		v, _, secs := runSolver("z3-new", file, 2, cfg.seed)
 		o.Backend, o.Secs = "z3-new", secs
 		if v == "unsat" {
 			o.Verdict = "vacuous"
@@ -233,4 +233,60 @@ func dischargeAll(obls []*Obl, cfg *solverCfg) {
 		}(i, o)
 	}
 	wg.Wait()
+}
+
+// discharge decides an obligation; when the plain query is not answered and
+// the obligation follows one or two appends, it is retried once per case of
+// "the append was in place / it reallocated" (all cases must be unsat).
+func discharge(o *Obl, cfg *solverCfg, idx int, extra ...string) {
+	var conds []string
+	if o.ctx != nil && o.Expect != "sat" {
+		for i := len(o.ctx.caseConds) - 1; i >= 0 && len(conds) < 1; i-- {
+			cc := o.ctx.caseConds[i]
+			if cc.at <= o.at && (o.hist == nil || o.hist.Bit(int(cc.visit)) == 1) {
+				conds = append(conds, cc.term)
+				// a quantified goal over the elements: is it the element just appended?
+				if o.sk0 != "" {
+					conds = append(conds, fmt.Sprintf("(= %s %s)", o.sk0, cc.lenTerm))
+				}
+			}
+		}
+	}
+	if len(conds) == 0 {
+		dischargeOnce(o, cfg, idx, extra...)
+		return
+	}
+	c1 := *cfg
+	if c1.quickTO > 4 {
+		c1.quickTO, c1.fallback = 4, 4
+	}
+	dischargeOnce(o, &c1, idx, extra...)
+	if o.Verdict == "discharged" || o.Verdict == "conflict" || o.Verdict == "failed-sat" {
+		return
+	}
+	first := o.Detail
+	total := o.Secs
+	n := 1 << len(conds)
+	for m := 0; m < n; m++ {
+		ex := append([]string{}, extra...)
+		for k, t := range conds {
+			if m&(1<<k) != 0 {
+				ex = append(ex, "(assert "+t+")")
+			} else {
+				ex = append(ex, "(assert (not "+t+"))")
+			}
+		}
+		o2 := *o
+		o2.Verdict, o2.Detail = "", ""
+		dischargeOnce(&o2, cfg, idx*8+m+1000000, ex...)
+		total += o2.Secs
+		if o2.Verdict != "discharged" {
+			o.Verdict, o.Detail, o.Secs = o2.Verdict, first+"; case "+strings.Join(ex[len(extra):], " ")+": "+o2.Detail, total
+			return
+		}
+		o.Backend = o2.Backend
+	}
+	o.Verdict, o.Secs = "discharged", total
+	o.Detail = first + "; discharged by case split on append in-place/growth"
+	o.Backend += "+cases"
 }
